@@ -10,6 +10,11 @@
 //! handing out a value that is already in use.
 //! Every history over the alphabet below up to a depth is executed from a fresh database
 //! (no merging: the counter lives in the table header, the row-id counter in memory).
+//!
+//! Options (development / self test only): `--opt pass=<full|no-known-triggers|core|core-small>`,
+//! `--opt maxdepth=N`, `--opt verbose=1`, `--opt plant=restart-identity` (the truncate op becomes
+//! `TRUNCATE TABLE t RESTART IDENTITY`, an explicit counter reset: the harness must report
+//! `[insert omitted;truncate;insert omitted]/reused-value`).
 use checks::sqlh::{Res, TestDb};
 use refmodel::val::{Row, V};
 use std::collections::{BTreeMap, BTreeSet};
@@ -17,6 +22,7 @@ use turdb::OwnedValue;
 use vcore::{json, Check, Ctx, Reporter, Spec, Value};
 
 const LARGE: i64 = 1000;
+static PLANT_RESTART: std::sync::atomic::AtomicBool = std::sync::atomic::AtomicBool::new(false);
 const DDL: &str = "CREATE TABLE t (id INT PRIMARY KEY AUTO_INCREMENT, a INT)";
 
 #[derive(Clone, Copy, PartialEq, Eq, Debug, PartialOrd, Ord, Hash)]
@@ -34,6 +40,8 @@ enum Op {
     MultiOmitOmit,
     DelMax,
     DelAll,
+    /// `UPDATE t SET id = next WHERE id = <max>`: the column then holds a value the counter never saw
+    UpdMaxToNext,
     Truncate,
     TxnRollbackIns,
     SavepointRollbackIns,
@@ -44,9 +52,9 @@ enum Op {
 }
 use Op::*;
 
-const ALL_OPS: [Op; 18] = [
-    InsOmit, InsNull, InsExplicit1, InsExplicitNext, InsExplicitNext5, InsExplicitLarge, MultiNextOmit, MultiOmitNext1Omit, MultiOmitOmit, DelMax, DelAll, Truncate, TxnRollbackIns, SavepointRollbackIns, TxnCommitIns, Reopen, BatchNext,
-    BatchNull,
+const ALL_OPS: [Op; 19] = [
+    InsOmit, InsNull, InsExplicit1, InsExplicitNext, InsExplicitNext5, InsExplicitLarge, MultiNextOmit, MultiOmitNext1Omit, MultiOmitOmit, DelMax, DelAll, UpdMaxToNext, Truncate, TxnRollbackIns, SavepointRollbackIns, TxnCommitIns, Reopen,
+    BatchNext, BatchNull,
 ];
 
 impl Op {
@@ -63,6 +71,7 @@ impl Op {
             MultiOmitOmit => "insert (omitted, omitted)",
             DelMax => "delete max",
             DelAll => "delete all",
+            UpdMaxToNext => "update max id to next",
             Truncate => "truncate",
             TxnRollbackIns => "begin+insert omitted+rollback",
             SavepointRollbackIns => "savepoint+insert omitted+rollback to",
@@ -78,8 +87,23 @@ impl Op {
     fn parse(s: &str) -> Option<Op> {
         ALL_OPS.iter().copied().find(|o| o.name() == s)
     }
+    /// simpler ops that may stand in for this one in a minimal pattern (most preferred first)
+    fn simpler(self) -> &'static [Op] {
+        match self {
+            InsNull | MultiOmitOmit | TxnCommitIns | TxnRollbackIns | InsExplicit1 | InsExplicitNext => &[InsOmit],
+            SavepointRollbackIns => &[InsOmit, TxnRollbackIns],
+            InsExplicitNext5 => &[InsOmit, InsExplicitNext],
+            InsExplicitLarge => &[InsOmit, InsExplicitNext, InsExplicitNext5],
+            DelAll => &[DelMax],
+            _ => &[],
+        }
+    }
+    /// can `self` (in a found history) be reduced to `p` (in a minimal pattern)?
+    fn reduces_to(self, p: Op) -> bool {
+        self == p || self.simpler().contains(&p)
+    }
     fn is_insert(self) -> bool {
-        !matches!(self, DelMax | DelAll | Truncate | Reopen)
+        !matches!(self, DelMax | DelAll | UpdMaxToNext | Truncate | Reopen)
     }
 }
 
@@ -339,8 +363,18 @@ impl<'a> Runner<'a> {
                 f.since_delete = true;
                 Self::refresh(t, f)
             }
+            UpdMaxToNext => {
+                let Some(&m) = f.table.last() else { return StepEnd::NotApplicable };
+                let sql = format!("UPDATE t SET id = {next} WHERE id = {m}");
+                let r = t.exec(&sql);
+                if !r.ok() {
+                    return StepEnd::Cut("update-refused", format!("{sql} => {}", r.show()));
+                }
+                Self::refresh(t, f)
+            }
             Truncate => {
-                let r = t.exec("TRUNCATE TABLE t");
+                // self test of the harness (`--opt plant=restart-identity`): an explicit counter reset must be caught
+                let r = t.exec(if PLANT_RESTART.load(std::sync::atomic::Ordering::Relaxed) { "TRUNCATE TABLE t RESTART IDENTITY" } else { "TRUNCATE TABLE t" });
                 if !r.ok() {
                     return StepEnd::Cut("truncate-refused", r.show());
                 }
@@ -469,7 +503,9 @@ impl<'a> Runner<'a> {
         }
     }
 
-    /// 1-minimal sub-history keeping the last op and the violation class (deterministic fixpoint)
+    /// Minimal history with the same violation class at its last step: single removals (the last
+    /// op stays), then replacement of an op by a simpler one, until neither applies.
+    /// Deterministic and a fixpoint of itself.
     fn shrink(&mut self, hist: &[Op], class: &str) -> Vec<Op> {
         let mut cur = hist.to_vec();
         'outer: loop {
@@ -481,6 +517,16 @@ impl<'a> Runner<'a> {
                     continue 'outer;
                 }
             }
+            for i in 0..cur.len() {
+                for &r in cur[i].simpler() {
+                    let mut c = cur.clone();
+                    c[i] = r;
+                    if self.reproduces(&c, class).is_some() {
+                        cur = c;
+                        continue 'outer;
+                    }
+                }
+            }
             return cur;
         }
     }
@@ -489,13 +535,14 @@ impl<'a> Runner<'a> {
 fn pattern(h: &[Op]) -> String {
     format!("[{}]", h.iter().map(|o| o.label()).collect::<Vec<_>>().join(";"))
 }
+/// `p` is obtained from `h` by removing ops (not the last) and replacing ops by simpler ones
 fn is_subsequence_ending(p: &[Op], h: &[Op]) -> bool {
-    if p.is_empty() || h.is_empty() || p[p.len() - 1] != h[h.len() - 1] {
+    if p.is_empty() || h.is_empty() || !h[h.len() - 1].reduces_to(p[p.len() - 1]) {
         return false;
     }
     let mut i = 0;
     for &x in &h[..h.len() - 1] {
-        if i < p.len() - 1 && p[i] == x {
+        if i < p.len() - 1 && x.reduces_to(p[i]) {
             i += 1;
         }
     }
@@ -516,7 +563,7 @@ fn passes() -> Vec<Pass> {
         Pass { name: "full", ops: ALL_OPS.to_vec(), depth_quick: 3, depth_thorough: 4 },
         // the known triggers (statement-local counter, insert_batch, explicit ids the counter never sees)
         // removed so that the remainder reaches full depth
-        Pass { name: "no-known-triggers", ops: without(&[MultiNextOmit, MultiOmitNext1Omit, BatchNext, BatchNull, InsNull, TxnCommitIns, InsExplicitLarge]), depth_quick: 4, depth_thorough: 5 },
+        Pass { name: "no-known-triggers", ops: without(&[MultiNextOmit, MultiOmitNext1Omit, BatchNext, BatchNull, UpdMaxToNext, InsNull, TxnCommitIns, InsExplicitLarge]), depth_quick: 4, depth_thorough: 5 },
         // generation, deletion, rollback, reopen only
         Pass { name: "core", ops: vec![InsOmit, InsExplicitNext, MultiOmitOmit, DelMax, DelAll, Truncate, TxnRollbackIns, SavepointRollbackIns, Reopen], depth_quick: 4, depth_thorough: 6 },
         Pass { name: "core-small", ops: vec![InsOmit, InsExplicitNext5, DelMax, Truncate, TxnRollbackIns, Reopen], depth_quick: 5, depth_thorough: 7 },
@@ -558,7 +605,7 @@ impl<'a, 'b> Walker<'a, 'b> {
             if self.stop {
                 return;
             }
-            if table_empty && matches!(op, DelMax | DelAll) {
+            if table_empty && matches!(op, DelMax | DelAll | UpdMaxToNext) {
                 continue;
             }
             prefix.push(op);
@@ -641,7 +688,7 @@ impl Check for C12 {
         let mut s = Spec::new(
             "C12",
             "model_checking",
-            "every history over {insert with omitted id, with NULL id, with explicit id 1 / next / next+5 / large, multi-row inserts mixing omitted and explicit ids (explicit = the value the next omitted one gets), two omitted; delete max row, delete all, TRUNCATE; BEGIN+insert+ROLLBACK, SAVEPOINT+insert+ROLLBACK TO, BEGIN+insert+COMMIT; reopen; insert_batch with explicit next / NULL id} on t(id INT PRIMARY KEY AUTO_INCREMENT, a INT): all 18 ops to depth 3 (quick) / 4 (thorough), 11 ops without the known triggers to depth 4 / 5, 9 core ops to depth 4 / 6, 6 ops to depth 5 / 7, each history executed from a fresh database (no merging: header counter, in-memory row-id counter, index state are hidden); 'next' is resolved against the set of values the harness has seen in the column; a case is one history, non-trivial when its last op attempts an insert; generated values are read from RETURNING id and cross-checked with SELECT *",
+            "every history over {insert with omitted id, with NULL id, with explicit id 1 / next / next+5 / large, multi-row inserts mixing omitted and explicit ids (explicit = the value the next omitted one gets), two omitted; delete max row, delete all, TRUNCATE; BEGIN+insert+ROLLBACK, SAVEPOINT+insert+ROLLBACK TO, BEGIN+insert+COMMIT; reopen; insert_batch with explicit next / NULL id; UPDATE of the max id to next} on t(id INT PRIMARY KEY AUTO_INCREMENT, a INT): all 19 ops to depth 3 (quick) / 4 (thorough), 11 ops without the known triggers to depth 4 / 5, 9 core ops to depth 4 / 6, 6 ops to depth 5 / 7, each history executed from a fresh database (no merging: header counter, in-memory row-id counter, index state are hidden); 'next' is resolved against the set of values the harness has seen in the column; a case is one history, non-trivial when its last op attempts an insert; generated values are read from RETURNING id and cross-checked with SELECT *",
         );
         s.assumptions = &[
             "oracle = property statement only: generated values are distinct from every value the column ever held (explicit, generated, rolled back) and increase among themselves; a statement whose explicit ids are fresh and distinct must not fail with a PRIMARY KEY duplicate caused by a generated value",
@@ -654,6 +701,7 @@ impl Check for C12 {
     }
 
     fn run(&self, ctx: &Ctx, rep: &mut Reporter) {
+        PLANT_RESTART.store(ctx.opt("plant") == Some("restart-identity"), std::sync::atomic::Ordering::Relaxed);
         let only = ctx.opt("pass").map(|s| s.to_string());
         for o in ALL_OPS {
             rep.expect_nonzero(&format!("op.{}", o.name()));
@@ -670,6 +718,8 @@ impl Check for C12 {
                 }
             }
             let maxd = ctx.tier.pick(p.depth_quick, p.depth_thorough);
+    // development aid: `--opt maxdepth=N` clamps every pass (never used by the registered runs)
+    let maxd = ctx.opt("maxdepth").and_then(|s| s.parse::<usize>().ok()).map_or(maxd, |m| maxd.min(m));
             if maxd == 0 {
                 continue;
             }
@@ -686,6 +736,7 @@ impl Check for C12 {
     }
 
     fn replay(&self, ctx: &Ctx, case: &Value, rep: &mut Reporter) {
+        PLANT_RESTART.store(ctx.opt("plant") == Some("restart-identity"), std::sync::atomic::Ordering::Relaxed);
         let mut hist = vec![];
         for n in case["ops"].as_array().cloned().unwrap_or_default() {
             match n.as_str().and_then(Op::parse) {
